@@ -541,6 +541,15 @@ Proof.
     auto using set_ps_idsim, set_clock_idsim.
 Qed.
 
+Lemma stop_at_bound_bi s : bound (stop_at_bound s) = bound s /\ incl (stop_at_bound s) = incl s.
+Proof. unfold stop_at_bound. destruct (bound s >=? end_time s); split; reflexivity. Qed.
+
+Lemma stop_at_bound_samebound s t : SameBound s t -> SameBound (stop_at_bound s) (stop_at_bound t).
+Proof.
+  intros [B I]. destruct (stop_at_bound_bi s) as [A1 A2], (stop_at_bound_bi t) as [B1 B2].
+  unfold SameBound; split; congruence.
+Qed.
+
 Lemma take_event_bound p s e r : pend s = e :: r -> bound (take_event p s e r) = bound s /\ incl (take_event p s e r) = incl s.
 Proof.
   intros E. destruct (took_bound _ _ _ _ (take_event_took p s e r E)) as (A & B & _). auto.
@@ -557,21 +566,19 @@ Proof.
     destruct H as [[f C] L].
     destruct (pend s) as [|e r] eqn:E.
     + rewrite (cs_pend _ _ _ C), E. cbn [map]. split; [apply stop_at_bound_idsim; auto; split; eauto|].
-      destruct SB as [B I]. unfold SameBound, stop_at_bound. rewrite B.
-      destruct (bound s >=? end_time (set_clock (bound s) s)), (bound s >=? end_time (set_clock (bound s) t)); ssimpl; auto.
+      apply stop_at_bound_samebound; auto.
     + destruct (pop_coresim f s t e r C E) as [Et _]. rewrite Et.
       assert (Bq : beyond t (ren f e) = beyond s e).
       { unfold beyond. destruct SB as [-> ->]. reflexivity. }
       rewrite Bq. destruct (beyond s e).
       * split; [apply stop_at_bound_idsim; auto; split; eauto|].
-        destruct SB as [B I]. unfold SameBound, stop_at_bound. rewrite B.
-        destruct (bound s >=? end_time (set_clock (bound s) s)), (bound s >=? end_time (set_clock (bound s) t)); ssimpl; auto.
+        apply stop_at_bound_samebound; auto.
       * apply IH.
         -- apply take_event_idsim; auto.
         -- destruct (take_event_bound p s e r E) as [A1 A2].
            assert (Et' : pend t = ren f e :: map (ren f) r) by exact Et.
            destruct (take_event_bound p t _ _ Et') as [B1 B2].
-           destruct SB. unfold SameBound. congruence.
+           destruct SB. unfold SameBound; split; congruence.
 Qed.
 
 Lemma worker_ending_idsim s t : IdSim bs bt s t -> IdSim bs bt (worker_ending s) (worker_ending t).
@@ -838,7 +845,7 @@ Proof.
   induction cs as [|[n c] r IH]; intros s t H; cbn [run_cmds_burn run_cmds map snd]; [split; auto|].
   assert (Hb : IdSim bs bt (burn n s) t).
   { pose proof (burn_idsim n 0 s t H) as Q. unfold burn at 2 in Q. cbn [Z.max] in Q.
-    replace (set_nid (nid t + 0) t) with t in Q; auto. destruct t; unfold set_nid; cbn. f_equal. lia. }
+    rewrite Z.add_0_r in Q. replace (set_nid (nid t) t) with t in Q; auto. destruct t; reflexivity. }
   destruct (do_cmd_idsim fuel p c _ _ Hb) as [H1 E1].
   destruct (do_cmd fuel p (burn n s) c) as [s1 r1], (do_cmd fuel p t c) as [t1 r2]. cbn [fst snd] in *. subst r2.
   destruct (IH s1 t1 H1) as [H2 E2].
@@ -847,3 +854,731 @@ Proof.
 Qed.
 
 End Prims.
+
+(* ------------------------------------------------------------------ *)
+(** * Histories with several model programs; the invariant *)
+
+Theorem hreach_inv s : hreach s -> Inv s.
+Proof. induction 1; auto using Inv_init, do_cmd_inv. Qed.
+
+Lemma run_hist_hreach fuel h : forall s, hreach s -> hreach (run_hist fuel s h).
+Proof.
+  induction h as [|[p c] r IH]; intros s H; cbn [run_hist]; auto.
+  apply IH. constructor. exact H.
+Qed.
+
+Lemma reachable_hreach p s : reachable p s -> hreach s.
+Proof. induction 1; constructor; auto. Qed.
+
+Lemma Inv_dom_lt s : Inv s -> forall a, In a (dom s) -> a < nid s.
+Proof.
+  intros [_ _ H3 H4 _ _] a Ha. unfold dom in Ha. apply in_app_or in Ha. destruct Ha as [Ha|Ha].
+  - rewrite Forall_forall in H3. apply H3. unfold ids, live. rewrite map_app. apply in_or_app. left. exact Ha.
+  - rewrite Forall_forall in H4. apply H4. exact Ha.
+Qed.
+
+(* ------------------------------------------------------------------ *)
+(** * run_id_monotone_invariant *)
+
+Lemma logs_of_ren_sim f n' s : logs_of (ren_sim f n' s) = logs_of s.
+Proof.
+  unfold logs_of, etrace, ecanc, ren_sim, ren_trace; cbn.
+  rewrite !map_map. cbn. f_equal.
+Qed.
+
+Definition MonoOn (f : Z -> Z) (n' : Z) (s : sim) : Prop :=
+  (forall a, In a (dom s) -> f a < n') /\ (forall a b, In a (dom s) -> In b (dom s) -> a < b -> f a < f b).
+
+Lemma ren_sim_idsim f n' s :
+  (forall a, In a (dom s) -> a < nid s) -> MonoOn f n' s ->
+  IdSim (logs_of s) (logs_of s) s (ren_sim f n' s).
+Proof.
+  intros Lo [Hi Mo]. split.
+  - exists f. constructor; auto.
+  - exists no_logs. rewrite logs_of_ren_sim. split; destruct (logs_of s); reflexivity.
+Qed.
+
+Lemma idsim_logs_eq b s t : IdSim b b s t -> logs_of t = logs_of s.
+Proof. intros [_ [n [A B]]]. congruence. Qed.
+
+(* Strictly monotone renamings of the event ids (and any id counter above
+   them) commute with every command sequence: same command outcomes, same
+   snapshots, same observations. *)
+Theorem run_id_monotone_invariant f n' s fuel p cs :
+  (forall a, In a (dom s) -> a < nid s) -> MonoOn f n' s ->
+  let ra := run_cmds fuel p s cs in
+  let rb := run_cmds fuel p (ren_sim f n' s) cs in
+  snd rb = snd ra /\ logs_of (fst rb) = logs_of (fst ra).
+Proof.
+  intros Lo M ra rb.
+  destruct (run_cmds_idsim _ _ fuel p cs _ _ (ren_sim_idsim f n' s Lo M)) as [H E].
+  split; auto. eapply idsim_logs_eq; eauto.
+Qed.
+
+(* the same when unrelated activity consumes ids before every command of one of the runs *)
+Theorem run_id_gaps_invariant f n' s fuel p cs :
+  (forall a, In a (dom s) -> a < nid s) -> MonoOn f n' s ->
+  let ra := run_cmds_burn fuel p s cs in
+  let rb := run_cmds fuel p (ren_sim f n' s) (map snd cs) in
+  snd rb = snd ra /\ logs_of (fst rb) = logs_of (fst ra).
+Proof.
+  intros Lo M ra rb.
+  destruct (run_cmds_burn_idsim _ _ fuel p cs _ _ (ren_sim_idsim f n' s Lo M)) as [H E].
+  split; auto. eapply idsim_logs_eq; eauto.
+Qed.
+
+(* ------------------------------------------------------------------ *)
+(** * initialize: what it resets *)
+
+Lemma set_rsps_collapse a b c d s :
+  set_ps a (set_rs b (set_ps c (set_rs d s))) = set_ps a (set_rs b s).
+Proof. destruct s; reflexivity. Qed.
+
+(* handler code run from construct_model does not look at the run / replication state *)
+Lemma exec_action_construct_rsps a b s act :
+  exec_action InConstruct (set_ps a (set_rs b s)) act
+  = (set_ps a (set_rs b (fst (exec_action InConstruct s act))), snd (exec_action InConstruct s act)).
+Proof.
+  destruct act; cbn [exec_action inner_cmd fst snd]; try reflexivity.
+  - unfold do_sched. replace (sched_time (set_ps a (set_rs b s)) m) with (sched_time s m)
+      by (destruct m as [|[d|]|[t|]]; reflexivity).
+    destruct (sched_time s m); reflexivity.
+  - unfold do_cancel. ssimpl. destruct (nth_error (created s) k); [|reflexivity].
+    destruct (ev_mem e (pend s)); reflexivity.
+Qed.
+
+Lemma exec_actions_construct_rsps a b acts : forall s,
+  exec_actions InConstruct (set_ps a (set_rs b s)) acts
+  = (set_ps a (set_rs b (fst (exec_actions InConstruct s acts))), snd (exec_actions InConstruct s acts)).
+Proof.
+  induction acts as [|x r IH]; intros s; cbn [exec_actions]; [reflexivity|].
+  rewrite exec_action_construct_rsps.
+  destruct (exec_action InConstruct s x) as [s1 f1]. cbn [fst snd].
+  destruct f1; [reflexivity|]. apply IH.
+Qed.
+
+(* what initialize builds does not depend on the run / replication state it starts from *)
+Lemma init_body_rsps p r a b s : init_body p (set_ps a (set_rs b s)) r = init_body p s r.
+Proof.
+  unfold init_body. ssimpl.
+  set (s2 := set_created [] (set_clock (r_start r) (set_rep (Some r) (set_worker WAlive
+               (match worker s with WNone => set_pend [] s | _ => do_cleanup (set_pend [] s) end))))).
+  destruct (worker s) eqn:W.
+  - replace (set_created [] (set_clock (r_start r) (set_rep (Some r) (set_worker WAlive
+               (set_pend [] (set_ps a (set_rs b s)))))))
+      with (set_ps a (set_rs b s2)) by (unfold s2; destruct s; reflexivity).
+    rewrite exec_actions_construct_rsps.
+    destruct (exec_actions InConstruct s2 (body p 0)) as [s3 fl]. cbn [fst snd].
+    destruct fl.
+    + replace (raise_flag (set_ps a (set_rs b s3))) with (set_ps a (set_rs b (raise_flag s3))) by (destruct s3; reflexivity).
+      rewrite set_rsps_collapse. reflexivity.
+    + rewrite set_rsps_collapse. reflexivity.
+  - replace (do_cleanup (set_pend [] (set_ps a (set_rs b s)))) with (do_cleanup (set_pend [] s))
+      by (destruct s; reflexivity). reflexivity.
+  - replace (do_cleanup (set_pend [] (set_ps a (set_rs b s)))) with (do_cleanup (set_pend [] s))
+      by (destruct s; reflexivity). reflexivity.
+Qed.
+
+Lemma lapp_nil_l b : lapp no_logs b = b.
+Proof. destruct b; reflexivity. Qed.
+
+(* the state in which construct_model starts, from any state s and from a brand-new simulator *)
+Lemma init_pre_idsim s r :
+  rs s = RNotInit -> ps s = PNotInit ->
+  IdSim (logs_of s) no_logs
+    (set_created [] (set_clock (r_start r) (set_rep (Some r) (set_worker WAlive
+        (match worker (set_pend [] s) with WNone => set_pend [] s | _ => do_cleanup (set_pend [] s) end)))))
+    (set_created [] (set_clock (r_start r) (set_rep (Some r) (set_worker WAlive
+        (set_pend [] (init_sim (strat s))))))).
+Proof.
+  intros R P. split.
+  - exists (fun x => x).
+    replace (worker (set_pend [] s)) with (worker s) by reflexivity.
+    destruct (worker s); constructor; unfold dom, do_cleanup; ssimpl; rewrite ?R, ?P; try reflexivity;
+      cbn [eids map app In]; try (intros a Ha; exfalso; exact Ha); try (intros a b Ha; exfalso; exact Ha).
+  - exists no_logs. split.
+    + rewrite lapp_nil_l. replace (worker (set_pend [] s)) with (worker s) by reflexivity.
+      destruct (worker s); reflexivity.
+    + reflexivity.
+Qed.
+
+Lemma init_body_fresh_idsim p r s :
+  IdSim (logs_of s) no_logs (init_body p s r) (init_body p (init_sim (strat s)) r).
+Proof.
+  rewrite <- (init_body_rsps p r PNotInit RNotInit s).
+  set (s' := set_ps PNotInit (set_rs RNotInit s)).
+  replace (logs_of s) with (logs_of s') by reflexivity.
+  replace (strat s) with (strat s') by reflexivity.
+  unfold init_body at 1 2.
+  apply init_tail_idsim.
+  replace (worker (set_pend [] (init_sim (strat s')))) with WNone by reflexivity. cbv iota.
+  apply (init_pre_idsim s' r); reflexivity.
+Qed.
+
+(* THE ISOLATION THEOREM.  Take any state s that is not running -- whatever
+   happened before: never started, stepped, paused, ended, paused by a fault,
+   with whatever events still pending and whatever other model programs --
+   and initialise it for a replication r of program p; do the same with a
+   brand-new simulator.  Then every further command sequence has the same
+   outcomes and snapshots on both, and the re-initialised simulator logs
+   exactly what the new one logs (executed events with clocks, cancellations,
+   scheduling outcomes, notifications, statistics feed -- ids by rank), on top
+   of what it had logged before. *)
+Theorem reinit_fresh p r s fuel cs :
+  running s = false ->
+  let a := fst (do_init p s r) in
+  let b := fst (do_init p (init_sim (strat s)) r) in
+  let ra := run_cmds fuel p a cs in
+  let rb := run_cmds fuel p b cs in
+  snd (do_init p s r) = ResOk
+  /\ snd ra = snd rb
+  /\ logs_of (fst ra) = lapp (logs_of (fst rb)) (logs_of s).
+Proof.
+  intros R. cbv zeta. rewrite !do_init_eq, R.
+  replace (running (init_sim (strat s))) with false by reflexivity. cbn [fst snd].
+  split; auto.
+  destruct (run_cmds_idsim _ _ fuel p cs _ _ (init_body_fresh_idsim p r s)) as [[_ [n [A B]]] E].
+  split; [symmetry; exact E|].
+  rewrite lapp_no_logs in B. rewrite B. exact A.
+Qed.
+
+(* the same with a different model program per later command *)
+Lemma run_hist_idsim bs bt fuel h : forall s t,
+  IdSim bs bt s t -> IdSim bs bt (run_hist fuel s h) (run_hist fuel t h).
+Proof.
+  induction h as [|[p c] r IH]; intros s t H; cbn [run_hist]; auto.
+  apply IH. apply do_cmd_idsim. exact H.
+Qed.
+
+Theorem reinit_fresh_models_taking_turns p r s fuel h :
+  running s = false ->
+  let a := run_hist fuel (fst (do_init p s r)) h in
+  let b := run_hist fuel (fst (do_init p (init_sim (strat s)) r)) h in
+  logs_of a = lapp (logs_of b) (logs_of s).
+Proof.
+  intros R a b. unfold a, b. rewrite !do_init_eq, R.
+  replace (running (init_sim (strat s))) with false by reflexivity. cbn [fst].
+  destruct (run_hist_idsim _ _ fuel h _ _ (init_body_fresh_idsim p r s)) as [_ [n [A B]]].
+  rewrite lapp_no_logs in B. rewrite B. exact A.
+Qed.
+
+Lemma init_body_frame p s r :
+  exists s2 s3 fl,
+    s2 = set_created [] (set_clock (r_start r) (set_rep (Some r) (set_worker WAlive
+           (match worker (set_pend [] s) with WNone => set_pend [] s | _ => do_cleanup (set_pend [] s) end))))
+    /\ exec_actions InConstruct s2 (body p 0) = (s3, fl)
+    /\ HStep s2 s3
+    /\ init_body p s r =
+       let s5 := set_ps PInit (set_rs RInit (if fl then raise_flag s3 else s3)) in
+       if r_warm r <? clock s5 then raise_flag s5
+       else set_nid (nid s5 + 1) (set_pend (ins (mkEv (r_warm r) 10 (nid s5) HWarm 0) (pend s5)) s5).
+Proof.
+  unfold init_body. cbv zeta.
+  set (s2 := set_created [] _).
+  pose proof (exec_actions_hstep InConstruct (body p 0) s2) as HS.
+  destruct (exec_actions InConstruct s2 (body p 0)) as [s3 fl] eqn:E. cbn [fst] in HS.
+  exists s2, s3, fl. split; [reflexivity|]. split; [exact E|]. split; [exact HS|]. reflexivity.
+Qed.
+
+(* clock at the replication start; nothing that existed before is pending;
+   whatever is pending or referenced was created by this initialize *)
+Theorem reinit_clears_pending p s r :
+  Inv s -> running s = false ->
+  let s' := fst (do_init p s r) in
+  clock s' = r_start r
+  /\ (forall e, In e (pend s') -> nid s <= ev_id e)
+  /\ (forall e, In e (created s') -> nid s <= ev_id e)
+  /\ (forall e, In e (live s) -> ~ In e (pend s')).
+Proof.
+  intros HI R s'. unfold s'. rewrite do_init_eq, R. cbn [fst].
+  destruct (init_body_frame p s r) as (s2 & s3 & fl & E2 & E3 & HS & ->). cbv zeta.
+  assert (N2 : nid s2 = nid s) by (rewrite E2; destruct (worker (set_pend [] s)); reflexivity).
+  assert (P2 : pend s2 = []) by (rewrite E2; destruct (worker (set_pend [] s)); reflexivity).
+  assert (C2 : created s2 = []) by (rewrite E2; reflexivity).
+  assert (K2 : clock s2 = r_start r) by (rewrite E2; reflexivity).
+  destruct HS as [F _ _ _ HP].
+  assert (P3 : forall e, In e (pend s3) -> nid s <= ev_id e).
+  { intros e He. destruct (HP e He) as [H|[_ H]]; [rewrite P2 in H; destruct H|lia]. }
+  assert (C3 : forall e, In e (created s3) -> nid s <= ev_id e).
+  { intros e He. destruct (fr_created _ _ F) as [l [El Fl]]. rewrite El, C2 in He. cbn [app] in He.
+    rewrite Forall_forall in Fl. specialize (Fl e He). lia. }
+  assert (K3 : clock s3 = r_start r) by (rewrite (fr_clock _ _ F); exact K2).
+  assert (N3 : nid s <= nid s3) by (pose proof (fr_nid _ _ F); lia).
+  set (s5 := set_ps PInit (set_rs RInit (if fl then raise_flag s3 else s3))).
+  assert (Q : clock s5 = r_start r /\ pend s5 = pend s3 /\ created s5 = created s3 /\ nid s5 = nid s3)
+    by (unfold s5; destruct fl; ssimpl; auto).
+  destruct Q as (Q1 & Q2 & Q3 & Q4).
+  assert (G : forall x, clock x = r_start r -> (forall e, In e (pend x) -> nid s <= ev_id e) ->
+                        (forall e, In e (created x) -> nid s <= ev_id e) ->
+              clock x = r_start r /\ (forall e, In e (pend x) -> nid s <= ev_id e)
+              /\ (forall e, In e (created x) -> nid s <= ev_id e)
+              /\ (forall e, In e (live s) -> ~ In e (pend x))).
+  { intros x A B C. repeat split; auto. intros e He Hp. specialize (B e Hp).
+    destruct HI as [_ _ H3 _ _ _]. rewrite Forall_forall in H3.
+    assert (ev_id e < nid s) by (apply H3; unfold ids; apply in_map; exact He). lia. }
+  destruct (r_warm r <? clock s5).
+  - apply G; ssimpl; rewrite ?Q1, ?Q2, ?Q3; auto.
+  - apply G; ssimpl; rewrite ?Q1, ?Q3; auto.
+    intros e He. apply ins_In in He. destruct He as [->|He]; [cbn [ev_id]; rewrite Q4; lia|]. rewrite Q2 in He. auto.
+Qed.
+
+Lemma filter_ins_none (P : ev -> bool) e l :
+  (forall x, In x l -> P x = false) -> filter P (ins e l) = if P e then [e] else [].
+Proof.
+  induction l as [|x r IH]; intros H; cbn [ins filter].
+  - destruct (P e); reflexivity.
+  - destruct (ev_ltb e x); cbn [filter].
+    + rewrite (H x (or_introl eq_refl)).
+      assert (Z0 : filter P r = []).
+      { clear IH. induction r as [|y r' IHr]; auto. cbn [filter]. rewrite (H y (or_intror (or_introl eq_refl))).
+        apply IHr. intros z [->|Hz]; apply H; [left|right; right]; auto. }
+      rewrite Z0. destruct (P e); reflexivity.
+    + rewrite (H x (or_introl eq_refl)). apply IH. intros y Hy. apply H. right; auto.
+Qed.
+
+Lemma exec_action_nowarm md s a :
+  (forall x, In x (pend s) -> is_warm x = false) ->
+  forall x, In x (pend (fst (exec_action md s a))) -> is_warm x = false.
+Proof.
+  intros H. destruct a; cbn [exec_action fst]; auto.
+  - unfold do_sched. destruct (sched_time s m); ssimpl; auto.
+    unfold add_event; ssimpl. intros x Hx. apply ins_In in Hx. destruct Hx as [->|Hx]; auto.
+  - unfold do_cancel. destruct (nth_error (created s) k); auto.
+    destruct (ev_mem e (pend s)); ssimpl; auto. intros x Hx. apply H. eapply rem_incl; eauto.
+  - unfold inner_cmd. destruct md; ssimpl; auto; destruct c; destruct (running s); ssimpl; auto.
+Qed.
+
+Lemma exec_actions_nowarm md acts : forall s,
+  (forall x, In x (pend s) -> is_warm x = false) ->
+  forall x, In x (pend (fst (exec_actions md s acts))) -> is_warm x = false.
+Proof.
+  induction acts as [|a r IH]; intros s H; cbn [exec_actions fst]; auto.
+  pose proof (exec_action_nowarm md s a H) as H1.
+  destruct (exec_action md s a) as [s1 f1]. cbn [fst] in H1. destruct f1; cbn [fst]; [exact H1|].
+  apply IH. exact H1.
+Qed.
+
+(* exactly one warm-up event is pending after initialize: at the warm-up time, with the highest priority *)
+Theorem exactly_one_warmup_scheduled p s r :
+  running s = false -> r_start r <= r_warm r ->
+  exists n, nid s <= n /\ warmups (fst (do_init p s r)) = [mkEv (r_warm r) 10 n HWarm 0].
+Proof.
+  intros R W. rewrite do_init_eq, R. cbn [fst].
+  destruct (init_body_frame p s r) as (s2 & s3 & fl & E2 & E3 & HS & ->). cbv zeta.
+  assert (P2 : pend s2 = []) by (rewrite E2; destruct (worker (set_pend [] s)); reflexivity).
+  assert (K2 : clock s2 = r_start r) by (rewrite E2; reflexivity).
+  assert (N2 : nid s2 = nid s) by (rewrite E2; destruct (worker (set_pend [] s)); reflexivity).
+  assert (NW : forall x, In x (pend s3) -> is_warm x = false).
+  { pose proof (exec_actions_nowarm InConstruct (body p 0) s2) as Q. rewrite E3 in Q. cbn [fst] in Q.
+    apply Q. rewrite P2. intros x []. }
+  destruct HS as [F _ _ _ _].
+  set (s5 := set_ps PInit (set_rs RInit (if fl then raise_flag s3 else s3))).
+  assert (Q : clock s5 = r_start r /\ pend s5 = pend s3 /\ nid s5 = nid s3)
+    by (unfold s5; destruct fl; ssimpl; rewrite (fr_clock _ _ F); auto).
+  destruct Q as (Q1 & Q2 & Q3).
+  destruct (Z.ltb_spec (r_warm r) (clock s5)); [lia|].
+  exists (nid s5). split; [pose proof (fr_nid _ _ F); lia|].
+  unfold warmups; ssimpl. rewrite filter_ins_none; [reflexivity|]. rewrite Q2. exact NW.
+Qed.
+
+(* initialize while running: refused, nothing changes *)
+Theorem initialize_refused_while_running p s r :
+  running s = true -> do_init p s r = (s, ResRefused).
+Proof. intros R. rewrite do_init_eq, R. reflexivity. Qed.
+
+(* ... also when a handler of the running simulation issues it: only the
+   outcome of the call is logged *)
+Theorem initialize_from_handler_refused md s r :
+  md <> InConstruct -> running s = true ->
+  inner_cmd md s (CInit r) = out OCmdRefused s.
+Proof. intros M R. unfold inner_cmd. destruct md; try contradiction; rewrite R; reflexivity. Qed.
+
+(* ------------------------------------------------------------------ *)
+(** * The model object: output statistics are rebuilt *)
+
+Definition keys_of (sp : sspec) : list nat := map (fun q => fst (fst q)) sp.
+
+Lemma map_has_app key a b : map_has key (a ++ b) = map_has key a || map_has key b.
+Proof.
+  induction a as [|[k o] r IH]; cbn [app map_has]; auto. rewrite IH, orb_assoc. reflexivity.
+Qed.
+
+Lemma build_stats_ok n sp : forall m,
+  NoDup (keys_of sp) -> (forall k, In k (keys_of sp) -> map_has k (m_map m) = false) ->
+  snd (build_stats n sp m) = true.
+Proof.
+  induction sp as [|[[key kind] sid] r IH]; intros m ND Hm; cbn [build_stats snd]; auto.
+  cbn [keys_of map fst] in ND, Hm. inversion ND as [|? ? Hn ND']; subst.
+  rewrite (Hm key (or_introl eq_refl)). apply IH; auto.
+  intros k Hk. cbn [m_map]. rewrite map_has_app. cbn [map_has]. rewrite orb_false_r.
+  rewrite (Hm k (or_intror Hk)). cbn [orb].
+  destruct (Nat.eqb_spec key k) as [->|]; auto. contradiction.
+Qed.
+
+(* with the repaired initialize a model whose construct_model registers
+   each key once can be initialised from ANY state: never "already registered" *)
+Theorem x_init_never_already_registered xp x r :
+  NoDup (keys_of (xp_stats xp)) -> running (x_sim x) = false -> snd (x_init true xp x r) = XOk.
+Proof.
+  intros ND R. unfold x_init. rewrite R.
+  pose proof (build_stats_ok (length (obs (x_sim x))) (xp_stats xp)
+               (mkMdl [] (map (cut_obj (length (obs (x_sim x)))) (m_objs (x_mdl x)))) ND (fun k _ => eq_refl)) as H.
+  destruct (build_stats _ _ _) as [m1 ok]. cbn [snd] in H. subst ok. reflexivity.
+Qed.
+
+Theorem x_init_refused_while_running clr xp x r :
+  running (x_sim x) = true -> x_init clr xp x r = (x, XRefused).
+Proof. intros R. unfold x_init. rewrite R. reflexivity. Qed.
+
+(* the pinned code (map not emptied): the second initialize of a model with
+   one statistic raises *)
+Definition pinned_witness_prog : xprog := mkXProg [(0%nat, KTally, 0%nat)] [[]].
+Definition pinned_witness_repl : repl := mkRepl 0 0 40.
+
+Theorem x_init_pinned_already_registered_refuted :
+  let x1 := fst (x_init false pinned_witness_prog (x0 SWarnPause) pinned_witness_repl) in
+  NoDup (keys_of (xp_stats pinned_witness_prog))
+  /\ snd (x_init false pinned_witness_prog (x0 SWarnPause) pinned_witness_repl) = XOk
+  /\ running (x_sim x1) = false
+  /\ snd (x_init false pinned_witness_prog x1 pinned_witness_repl) = XAlreadyRegistered
+  /\ snd (x_init true pinned_witness_prog x1 pinned_witness_repl) = XOk.
+Proof. cbv zeta. split; [repeat constructor; intros []|]. vm_compute. auto. Qed.
+
+(* --- the statistics of the new replication are those of a brand-new simulator --- *)
+
+Definition shift_obj (L : nat) (o : sobj) : sobj :=
+  mkObj (so_key o) (so_kind o) (so_sid o) (so_from o + L) (option_map (fun n => (n + L)%nat) (so_upto o)).
+
+Definition shift_map (N : nat) (m : list (nat * nat)) : list (nat * nat) :=
+  map (fun ko => (fst ko, (snd ko + N)%nat)) m.
+
+Record MdlRel (L N : nat) (mx my : mdl) : Prop := mkMdlRel {
+  mr_map : m_map mx = shift_map N (m_map my);
+  mr_objs : skipn N (m_objs mx) = map (shift_obj L) (m_objs my);
+  mr_len : length (m_objs mx) = (N + length (m_objs my))%nat
+}.
+
+Record XRel (base : logs) (N : nat) (x y : xsim) : Prop := mkXRel {
+  xr_sim : IdSim base no_logs (x_sim x) (x_sim y);
+  xr_mdl : MdlRel (length (l_ob base)) N (x_mdl x) (x_mdl y)
+}.
+
+Lemma map_has_shift key N m : map_has key (shift_map N m) = map_has key m.
+Proof. unfold shift_map. induction m as [|[k o] r IH]; cbn [map map_has fst snd]; auto. rewrite IH. reflexivity. Qed.
+
+Lemma skipn_app_le {A} n (a b : list A) : (n <= length a)%nat -> skipn n (a ++ b) = skipn n a ++ b.
+Proof.
+  intros H. rewrite skipn_app. replace (n - length a)%nat with 0%nat by lia. reflexivity.
+Qed.
+
+Lemma build_stats_mrel L N nx ny sp : forall mx my,
+  nx = (ny + L)%nat -> MdlRel L N mx my ->
+  MdlRel L N (fst (build_stats nx sp mx)) (fst (build_stats ny sp my))
+  /\ snd (build_stats nx sp mx) = snd (build_stats ny sp my).
+Proof.
+  induction sp as [|[[key kind] sid] r IH]; intros mx my En M; cbn [build_stats fst snd]; auto.
+  destruct M as [Mm Mo Ml].
+  rewrite Mm, map_has_shift.
+  assert (Mo' : skipn N (m_objs mx ++ [mkObj key kind sid nx None])
+                = map (shift_obj L) (m_objs my ++ [mkObj key kind sid ny None])).
+  { rewrite skipn_app_le by lia. rewrite Mo, map_app. cbn [map]. unfold shift_obj at 3. cbn. subst nx. reflexivity. }
+  assert (Ml' : length (m_objs mx ++ [mkObj key kind sid nx None])
+                = (N + length (m_objs my ++ [mkObj key kind sid ny None]))%nat).
+  { rewrite !app_length. cbn [length]. lia. }
+  destruct (map_has key (m_map my)); cbn [fst snd].
+  - split; auto. constructor; cbn [m_map m_objs]; auto.
+  - apply IH; auto. constructor; cbn [m_map m_objs]; auto.
+    rewrite <- Mm. unfold shift_map. rewrite map_app. cbn [map fst snd]. fold (shift_map N (m_map my)).
+    rewrite <- Mm, Ml. f_equal. f_equal. f_equal. lia.
+Qed.
+
+Lemma cut_shift L n o : cut_obj (n + L) (shift_obj L o) = shift_obj L (cut_obj n o).
+Proof. unfold cut_obj, shift_obj. destruct o as [k kd sd fr [u|]]; reflexivity. Qed.
+
+Lemma idsim_obs_len base s t :
+  IdSim base no_logs s t -> length (obs s) = (length (obs t) + length (l_ob base))%nat.
+Proof.
+  intros [_ [n [A B]]]. rewrite lapp_no_logs in B.
+  assert (Os : obs s = l_ob n ++ l_ob base) by (change (obs s) with (l_ob (logs_of s)); rewrite A; reflexivity).
+  assert (Ot : obs t = l_ob n) by (change (obs t) with (l_ob (logs_of t)); rewrite B; reflexivity).
+  rewrite Os, Ot, app_length. reflexivity.
+Qed.
+
+Lemma cut_all_mrel L N nx ny mx my :
+  nx = (ny + L)%nat -> MdlRel L N mx my ->
+  MdlRel L N (mkMdl [] (map (cut_obj nx) (m_objs mx))) (mkMdl [] (map (cut_obj ny) (m_objs my))).
+Proof.
+  intros -> [Mm Mo Ml]. constructor; cbn [m_map m_objs]; auto.
+  - rewrite skipn_map, Mo, !map_map. apply map_ext. intros o. apply cut_shift.
+  - rewrite !map_length. exact Ml.
+Qed.
+
+Lemma x_init_xrel base N xp r x y :
+  NoDup (keys_of (xp_stats xp)) -> XRel base N x y ->
+  XRel base N (fst (x_init true xp x r)) (fst (x_init true xp y r)).
+Proof.
+  intros ND [S M]. unfold x_init. rewrite (idsim_running _ _ _ _ S).
+  destruct (running (x_sim x)); [constructor; auto|].
+  pose proof (idsim_obs_len _ _ _ S) as EL.
+  pose proof (cut_all_mrel _ N _ _ _ _ EL M) as M0.
+  destruct (build_stats_mrel _ N _ _ (xp_stats xp) _ _ EL M0) as [M1 E1].
+  pose proof (build_stats_ok (length (obs (x_sim y))) (xp_stats xp)
+               (mkMdl [] (map (cut_obj (length (obs (x_sim y)))) (m_objs (x_mdl y)))) ND (fun k _ => eq_refl)) as Ok.
+  destruct (build_stats (length (obs (x_sim x))) _ _) as [m1 ok1].
+  destruct (build_stats (length (obs (x_sim y))) _ _) as [m1' ok2]. cbn [fst snd] in *. subst ok1 ok2.
+  constructor; cbn [x_sim x_mdl]; auto.
+  apply do_init_idsim. exact S.
+Qed.
+
+Lemma x_cmd_xrel base N fuel xp c x y :
+  NoDup (keys_of (xp_stats xp)) -> XRel base N x y ->
+  XRel base N (x_cmd fuel xp x c) (x_cmd fuel xp y c).
+Proof.
+  intros ND H. destruct c; try (apply x_init_xrel; auto; fail);
+  destruct H as [S M]; constructor; cbn [x_cmd x_sim x_mdl]; auto;
+  apply do_cmd_idsim; exact S.
+Qed.
+
+Lemma x_run_xrel base N fuel xp cs : forall x y,
+  NoDup (keys_of (xp_stats xp)) -> XRel base N x y ->
+  XRel base N (x_run fuel xp x cs) (x_run fuel xp y cs).
+Proof.
+  induction cs as [|c r IH]; intros x y ND H; cbn [x_run]; auto.
+  apply IH; auto. apply x_cmd_xrel; auto.
+Qed.
+
+Lemma segment_shift {A} (a b : list A) from upto :
+  segment (from + length a) (option_map (fun n => (n + length a)%nat) upto) (a ++ b) = segment from upto b.
+Proof.
+  unfold segment. destruct upto as [u|]; cbn [option_map].
+  - replace (u + length a)%nat with (length a + u)%nat by lia. rewrite firstn_app_2.
+    rewrite skipn_app. replace (from + length a - length a)%nat with from by lia.
+    rewrite skipn_all2 by lia. reflexivity.
+  - rewrite skipn_app. replace (from + length a - length a)%nat with from by lia.
+    rewrite skipn_all2 by lia. reflexivity.
+Qed.
+
+Lemma feed_shift base s t o :
+  IdSim base no_logs s t -> feed s (shift_obj (length (l_ob base)) o) = feed t o.
+Proof.
+  intros [_ [n [A B]]]. rewrite lapp_no_logs in B.
+  assert (Os : obs s = l_ob n ++ l_ob base) by (change (obs s) with (l_ob (logs_of s)); rewrite A; reflexivity).
+  assert (Ot : obs t = l_ob n) by (change (obs t) with (l_ob (logs_of t)); rewrite B; reflexivity).
+  unfold feed. rewrite Os, Ot, rev_app_distr. cbn [shift_obj so_from so_upto].
+  rewrite <- (rev_length (l_ob base)). rewrite segment_shift.
+  apply filter_ext. intros q. destruct q; reflexivity.
+Qed.
+
+Lemma nth_error_skipn {A} N i (l : list A) : nth_error l (i + N) = nth_error (skipn N l) i.
+Proof.
+  revert l. induction N as [|N IH]; intros l; [rewrite Nat.add_0_r; reflexivity|].
+  destruct l as [|a l]; [destruct i; reflexivity|].
+  rewrite Nat.add_succ_r. cbn [nth_error skipn]. apply IH.
+Qed.
+
+Lemma reported_xrel base N x y : XRel base N x y -> reported x = reported y.
+Proof.
+  intros [S [Mm Mo Ml]]. unfold reported. rewrite Mm. unfold shift_map. rewrite map_map. cbn [fst snd].
+  apply map_ext. intros [k i]. cbn [fst snd]. f_equal.
+  rewrite nth_error_skipn, Mo, nth_error_map.
+  destruct (nth_error (m_objs (x_mdl y)) i) as [o|]; cbn [option_map]; auto.
+  rewrite (feed_shift _ _ _ o S). reflexivity.
+Qed.
+
+Lemma x_init_fresh_xrel xp r x :
+  NoDup (keys_of (xp_stats xp)) -> running (x_sim x) = false ->
+  XRel (logs_of (x_sim x)) (length (m_objs (x_mdl x)))
+       (fst (x_init true xp x r)) (fst (x_init true xp (x0 (strat (x_sim x))) r)).
+Proof.
+  intros ND R. unfold x_init. rewrite R.
+  replace (running (x_sim (x0 (strat (x_sim x))))) with false by reflexivity.
+  set (L := length (obs (x_sim x))). set (N := length (m_objs (x_mdl x))).
+  assert (M0 : MdlRel L N (mkMdl [] (map (cut_obj L) (m_objs (x_mdl x)))) (mkMdl [] (map (cut_obj 0) []))).
+  { constructor; cbn [m_map m_objs map]; auto.
+    - rewrite skipn_all2; auto. rewrite map_length. unfold N. lia.
+    - rewrite map_length. cbn. unfold N. lia. }
+  assert (EL : L = (0 + L)%nat) by reflexivity.
+  destruct (build_stats_mrel L N L 0%nat (xp_stats xp) _ _ EL M0) as [M1 E1].
+  pose proof (build_stats_ok 0%nat (xp_stats xp) (mkMdl [] (map (cut_obj 0) [])) ND (fun k _ => eq_refl)) as Ok.
+  replace (length (obs (x_sim (x0 (strat (x_sim x)))))) with 0%nat by reflexivity.
+  replace (m_objs (x_mdl (x0 (strat (x_sim x))))) with (@nil sobj) by reflexivity.
+  destruct (build_stats L _ _) as [m1 ok1].
+  destruct (build_stats 0 _ _) as [m1' ok2]. cbn [fst snd] in *. subst ok1 ok2.
+  constructor; cbn [x_sim x_mdl x0].
+  - rewrite !do_init_eq, R. replace (running (init_sim (strat (x_sim x)))) with false by reflexivity.
+    cbn [fst]. apply init_body_fresh_idsim.
+  - exact M1.
+Qed.
+
+(* the model reports, after re-initialisation and any further commands (more
+   re-initialisations included), the same statistics -- keys, kinds and what
+   each was fed -- as the same commands on a brand-new simulator and model *)
+Theorem reinit_statistics_fresh xp r x fuel cs :
+  NoDup (keys_of (xp_stats xp)) -> running (x_sim x) = false ->
+  let xa := x_run fuel xp (fst (x_init true xp x r)) cs in
+  let xb := x_run fuel xp (fst (x_init true xp (x0 (strat (x_sim x))) r)) cs in
+  reported xa = reported xb
+  /\ logs_of (x_sim xa) = lapp (logs_of (x_sim xb)) (logs_of (x_sim x)).
+Proof.
+  intros ND R xa xb.
+  pose proof (x_run_xrel _ _ fuel xp cs _ _ ND (x_init_fresh_xrel xp r x ND R)) as H.
+  split; [eapply reported_xrel; exact H|].
+  destruct H as [[_ [n [A B]]] _]. rewrite lapp_no_logs in B. fold xa in A. fold xb in B. rewrite B. exact A.
+Qed.
+
+(* right after initialize the map holds exactly the statistics of this
+   construct_model, all of them new objects fed from now on *)
+Lemma build_stats_from_empty n sp : forall m,
+  NoDup (keys_of sp) -> (forall k, In k (keys_of sp) -> map_has k (m_map m) = false) ->
+  let m' := fst (build_stats n sp m) in
+  m_map m' = m_map m ++ combine (keys_of sp) (seq (length (m_objs m)) (length sp))
+  /\ m_objs m' = m_objs m ++ map (fun q => mkObj (fst (fst q)) (snd (fst q)) (snd q) n None) sp.
+Proof.
+  induction sp as [|[[key kind] sid] r IH]; intros m ND Hm; cbn [build_stats fst].
+  - cbn. rewrite !app_nil_r. auto.
+  - cbn [keys_of map fst] in ND, Hm. inversion ND as [|? ? Hn ND']; subst.
+    rewrite (Hm key (or_introl eq_refl)).
+    destruct (IH (mkMdl (m_map m ++ [(key, length (m_objs m))]) (m_objs m ++ [mkObj key kind sid n None])) ND') as [A B].
+    { intros k Hk. cbn [m_map]. rewrite map_has_app. cbn [map_has]. rewrite orb_false_r.
+      rewrite (Hm k (or_intror Hk)). cbn [orb]. destruct (Nat.eqb_spec key k) as [->|]; auto. contradiction. }
+    cbv zeta in *. rewrite A, B. cbn [m_map m_objs length map fst snd keys_of seq combine].
+    rewrite app_length, <- !app_assoc. cbn [length app]. rewrite Nat.add_1_r. auto.
+Qed.
+
+Theorem x_init_rebuilds_statistics xp x r :
+  NoDup (keys_of (xp_stats xp)) -> running (x_sim x) = false ->
+  let x' := fst (x_init true xp x r) in
+  let N := length (m_objs (x_mdl x)) in
+  m_map (x_mdl x') = combine (keys_of (xp_stats xp)) (seq N (length (xp_stats xp)))
+  /\ skipn N (m_objs (x_mdl x'))
+     = map (fun q => mkObj (fst (fst q)) (snd (fst q)) (snd q) (length (obs (x_sim x))) None) (xp_stats xp)
+  /\ firstn N (m_objs (x_mdl x')) = map (cut_obj (length (obs (x_sim x)))) (m_objs (x_mdl x)).
+Proof.
+  intros ND R. cbv zeta. unfold x_init. rewrite R.
+  set (n := length (obs (x_sim x))).
+  set (m0 := mkMdl [] (map (cut_obj n) (m_objs (x_mdl x)))).
+  destruct (build_stats_from_empty n (xp_stats xp) m0 ND (fun k _ => eq_refl)) as [A B].
+  pose proof (build_stats_ok n (xp_stats xp) m0 ND (fun k _ => eq_refl)) as Ok.
+  destruct (build_stats n (xp_stats xp) m0) as [m1 ok]. cbn [fst snd] in *. subst ok. cbn [fst x_mdl].
+  unfold m0 in A, B. cbn [m_map m_objs] in A, B. rewrite map_length in A.
+  split; [exact A|]. rewrite B.
+  assert (LN : length (map (cut_obj n) (m_objs (x_mdl x))) = length (m_objs (x_mdl x))) by apply map_length.
+  split.
+  - rewrite skipn_app, <- LN, skipn_all, Nat.sub_diag. reflexivity.
+  - rewrite firstn_app, <- LN, firstn_all, Nat.sub_diag. cbn [firstn]. rewrite app_nil_r. reflexivity.
+Qed.
+
+(* --- and the statistics of the previous replication are left alone --- *)
+
+Lemma cut_cut n m o : cut_obj m (cut_obj n o) = cut_obj n o.
+Proof. unfold cut_obj. destruct o as [k kd sd fr [u|]]; reflexivity. Qed.
+
+Lemma build_stats_prefix n sp : forall m i o,
+  nth_error (m_objs m) i = Some o -> nth_error (m_objs (fst (build_stats n sp m))) i = Some o.
+Proof.
+  induction sp as [|[[key kind] sid] r IH]; intros m i o H; cbn [build_stats fst]; auto.
+  assert (H' : nth_error (m_objs m ++ [mkObj key kind sid n None]) i = Some o).
+  { rewrite nth_error_app1; auto. apply nth_error_Some. congruence. }
+  destruct (map_has key (m_map m)); cbn [fst m_objs]; auto.
+Qed.
+
+Definition was_cut (o : sobj) : Prop := exists u, so_upto o = Some u.
+
+Lemma x_cmd_keeps_cut fuel xp c x i o :
+  nth_error (m_objs (x_mdl x)) i = Some o -> was_cut o ->
+  nth_error (m_objs (x_mdl (x_cmd fuel xp x c))) i = Some o.
+Proof.
+  intros H [u Hu]. destruct c; cbn [x_cmd x_mdl]; auto.
+  unfold x_init. destruct (running (x_sim x)); cbn [fst x_mdl]; auto.
+  set (n := length (obs (x_sim x))).
+  assert (H0 : nth_error (map (cut_obj n) (m_objs (x_mdl x))) i = Some o).
+  { rewrite nth_error_map, H. cbn [option_map]. f_equal. unfold cut_obj. rewrite Hu. reflexivity. }
+  pose proof (build_stats_prefix n (xp_stats xp) (mkMdl [] (map (cut_obj n) (m_objs (x_mdl x)))) i o H0) as Q.
+  destruct (build_stats n (xp_stats xp) _) as [m1 ok]. cbn [fst] in Q. destruct ok; exact Q.
+Qed.
+
+Lemma x_run_keeps_cut fuel xp cs : forall x i o,
+  nth_error (m_objs (x_mdl x)) i = Some o -> was_cut o ->
+  nth_error (m_objs (x_mdl (x_run fuel xp x cs))) i = Some o.
+Proof.
+  induction cs as [|c r IH]; intros x i o H W; cbn [x_run]; auto.
+  apply IH; auto. apply x_cmd_keeps_cut; auto.
+Qed.
+
+(* the observation log only grows *)
+Lemma x_cmd_obs_grows fuel xp c x :
+  Inv (x_sim x) -> Inv (x_sim (x_cmd fuel xp x c))
+  /\ exists n, obs (x_sim (x_cmd fuel xp x c)) = n ++ obs (x_sim x).
+Proof.
+  intros HI.
+  assert (G : forall s', (exists c', s' = fst (do_cmd fuel (xp_prog xp) (x_sim x) c')) ->
+              Inv s' /\ exists n, obs s' = n ++ obs (x_sim x)).
+  { intros s' [c' ->]. split; [apply do_cmd_inv; auto|].
+    assert (S : IdSim (logs_of (x_sim x)) (logs_of (x_sim x)) (x_sim x) (x_sim x)).
+    { split; [|apply LogsRel_start]. exists (fun a => a). constructor; auto using Inv_dom_lt.
+      - rewrite map_ext with (g := fun e => e); [rewrite map_id; reflexivity|intros []; reflexivity].
+      - rewrite map_ext with (g := fun e => e); [rewrite map_id; reflexivity|intros []; reflexivity]. }
+    destruct (do_cmd_idsim _ _ fuel (xp_prog xp) c' _ _ S) as [[_ [n [A _]]] _].
+    exists (l_ob n). change (obs (fst (do_cmd fuel (xp_prog xp) (x_sim x) c')))
+      with (l_ob (logs_of (fst (do_cmd fuel (xp_prog xp) (x_sim x) c')))). rewrite A. reflexivity. }
+  destruct c; cbn [x_cmd x_sim]; try (apply G; eexists; reflexivity).
+  unfold x_init. destruct (running (x_sim x)) eqn:R; cbn [fst x_sim].
+  - split; auto. exists []. reflexivity.
+  - destruct (build_stats _ _ _) as [m1 ok]. destruct ok; cbn [fst x_sim].
+    + apply (G _ (ex_intro _ (CInit r) eq_refl)).
+    + split; auto. exists []. reflexivity.
+Qed.
+
+Lemma x_run_obs_grows fuel xp cs : forall x,
+  Inv (x_sim x) -> exists n, obs (x_sim (x_run fuel xp x cs)) = n ++ obs (x_sim x).
+Proof.
+  induction cs as [|c r IH]; intros x HI; cbn [x_run]; [exists []; reflexivity|].
+  destruct (x_cmd_obs_grows fuel xp c x HI) as [HI' [n1 E1]].
+  destruct (IH _ HI') as [n2 E2]. exists (n2 ++ n1). rewrite E2, E1, app_assoc. reflexivity.
+Qed.
+
+Lemma firstn_len_app {A} (a b : list A) : firstn (length a) (a ++ b) = a.
+Proof. rewrite firstn_app, Nat.sub_diag, firstn_all. cbn [firstn]. apply app_nil_r. Qed.
+
+Lemma feed_cut_stable s s' o n :
+  so_upto o = Some (length (obs s)) -> obs s' = n ++ obs s -> feed s' o = feed s o.
+Proof.
+  intros U E. unfold feed, segment. rewrite U, E, rev_app_distr.
+  rewrite <- (rev_length (obs s)), firstn_len_app, firstn_all. reflexivity.
+Qed.
+
+(* a statistic that was connected when the simulator was initialised again
+   keeps, whatever the new replication does, exactly the observations it had *)
+Theorem old_statistics_frozen xp r x fuel cs i o :
+  Inv (x_sim x) -> running (x_sim x) = false ->
+  nth_error (m_objs (x_mdl x)) i = Some o -> so_upto o = None ->
+  let x' := x_run fuel xp (fst (x_init true xp x r)) cs in
+  exists o', nth_error (m_objs (x_mdl x')) i = Some o'
+             /\ so_key o' = so_key o /\ so_kind o' = so_kind o
+             /\ feed (x_sim x') o' = feed (x_sim x) o.
+Proof.
+  intros HI R Hi Hu x'.
+  set (n := length (obs (x_sim x))).
+  set (o' := cut_obj n o).
+  assert (W : was_cut o') by (exists n; unfold o', cut_obj; rewrite Hu; reflexivity).
+  assert (H1 : nth_error (m_objs (x_mdl (fst (x_init true xp x r)))) i = Some o').
+  { unfold x_init. rewrite R. fold n.
+    assert (H0 : nth_error (map (cut_obj n) (m_objs (x_mdl x))) i = Some o')
+      by (rewrite nth_error_map, Hi; reflexivity).
+    pose proof (build_stats_prefix n (xp_stats xp) (mkMdl [] (map (cut_obj n) (m_objs (x_mdl x)))) i o' H0) as Q.
+    destruct (build_stats n (xp_stats xp) _) as [m1 ok]. cbn [fst] in Q. destruct ok; exact Q. }
+  exists o'. split; [apply x_run_keeps_cut; auto|].
+  assert (K : so_key o' = so_key o /\ so_kind o' = so_kind o /\ so_sid o' = so_sid o /\ so_from o' = so_from o
+              /\ so_upto o' = Some n).
+  { unfold o', cut_obj. rewrite Hu. cbn. auto. }
+  destruct K as (K1 & K2 & K3 & K4 & K5). repeat split; auto.
+  assert (G : exists m, obs (x_sim x') = m ++ obs (x_sim x)).
+  { destruct (x_cmd_obs_grows fuel xp (CInit r) x HI) as [HI1 [n1 E1]]. cbn [x_cmd] in HI1, E1.
+    destruct (x_run_obs_grows fuel xp cs _ HI1) as [n2 E2]. fold x' in E2.
+    exists (n2 ++ n1). rewrite E2, E1, app_assoc. reflexivity. }
+  destruct G as [m E].
+  rewrite (feed_cut_stable (x_sim x) (x_sim x') o' m K5 E).
+  unfold feed, segment. rewrite K5, K4, Hu. unfold n.
+  rewrite <- (rev_length (obs (x_sim x))), firstn_all.
+  apply filter_ext. intros q. unfold relevant. rewrite K3, K2. reflexivity.
+Qed.
